@@ -212,6 +212,9 @@ pub enum Bind {
     Var(String),
     Temp,
     Discard,
+    /// the guard is stored into a variable declared `up` scopes further out (`x = Some(l.write().await)`,
+    /// `x.insert(..)`): it lives until that variable's scope ends, is dropped or is overwritten with None
+    Outer(String, usize),
 }
 
 #[derive(Clone, Debug)]
@@ -677,6 +680,32 @@ impl<'a> Builder<'a> {
         (vec![], true, String::new())
     }
 
+    /// `Some(e)`, `Ok(e)`, `Box::new(e)`, `(e)` -> e
+    fn peel_wrapper(e: &Expr) -> &Expr {
+        match e {
+            Expr::Paren(p) => Self::peel_wrapper(&p.expr),
+            Expr::Call(c) if c.args.len() == 1 => {
+                let f = expr_text(&c.func).replace(' ', "");
+                if ["Some", "Ok", "Box::new", "Arc::new"].contains(&f.as_str()) {
+                    Self::peel_wrapper(&c.args[0])
+                } else {
+                    e
+                }
+            }
+            _ => e,
+        }
+    }
+
+    /// how many scopes further out than the current one `name` was declared (large when unknown)
+    fn scopes_up(env: &Env, name: &str) -> usize {
+        for (i, m) in env.vars.iter().enumerate().rev() {
+            if m.contains_key(name) {
+                return env.vars.len() - 1 - i;
+            }
+        }
+        usize::MAX / 2
+    }
+
     fn bind_name(p: &Pat) -> Option<String> {
         match p {
             Pat::Ident(i) => Some(i.ident.to_string()),
@@ -842,6 +871,27 @@ impl<'a> Builder<'a> {
             }
             Expr::Macro(m) => self.mac(&m.mac, env, out),
             Expr::Assign(a) => {
+                // `x = Some(lock.write().await)` / `x = lock.write().await`: the guard moves into x
+                if let Expr::Path(lp) = &*a.left {
+                    if let Some(name) = lp.path.get_ident().map(|i| i.to_string()) {
+                        if let Some((recv, write, _)) = self.as_acq(Self::peel_wrapper(&a.right)) {
+                            let mut s = vec![];
+                            self.expr(recv, env, &mut s);
+                            out.extend(s);
+                            if let Some(site) = self.classify(recv, env, line_of(&*a.right), write) {
+                                let up = Self::scopes_up(env, &name);
+                                out.push(Node::Acq { site, bind: Bind::Outer(name, up) });
+                            }
+                            return;
+                        }
+                        if let Expr::Path(rp) = &*a.right {
+                            if rp.path.is_ident("None") {
+                                out.push(Node::Drop { var: name });
+                                return;
+                            }
+                        }
+                    }
+                }
                 self.expr(&a.right, env, out);
                 self.expr(&a.left, env, out);
             }
@@ -1054,14 +1104,16 @@ impl<'a> Builder<'a> {
                 let Some(init) = &l.init else { return };
                 let e = &init.expr;
                 // `let g = X.read().await;`  (possibly `let (a, b) = (X.read().await, Y.read().await);`)
-                if let Some((recv, write, _)) = self.as_acq(e) {
+                let e: &Box<Expr> = e;
+                let peeled: &Expr = if self.as_acq(e).is_none() && self.as_acq(Self::peel_wrapper(e)).is_some() { Self::peel_wrapper(e) } else { &**e };
+                if let Some((recv, write, _)) = self.as_acq(peeled) {
                     let mut s = vec![];
                     self.expr(recv, env, &mut s);
                     if !s.is_empty() {
                         out.push(Node::Stmt(s));
                     }
                     let name = Self::bind_name(&l.pat);
-                    if let Some(site) = self.classify(recv, env, line_of(e), write) {
+                    if let Some(site) = self.classify(recv, env, line_of(peeled), write) {
                         let bind = match name.as_deref() {
                             Some("_") => Bind::Discard,
                             Some(n) => Bind::Var(n.to_string()),
@@ -1297,6 +1349,7 @@ impl<'a> Explorer<'a> {
                             Bind::Discard => {}
                             Bind::Var(v) => held.push(Held { kind: s.kind.clone(), write: s.write, var: Some(v.clone()), depth, stmt: 0, site: Some(*site), inherited: false }),
                             Bind::Temp => held.push(Held { kind: s.kind.clone(), write: s.write, var: None, depth, stmt, site: Some(*site), inherited: false }),
+                            Bind::Outer(v, up) => held.push(Held { kind: s.kind.clone(), write: s.write, var: Some(v.clone()), depth: depth.saturating_sub(*up), stmt: 0, site: Some(*site), inherited: false }),
                         }
                     }
                 }
